@@ -81,10 +81,10 @@ def TodoOk (P : List (Cmd M O)) (seg left : List M) : List (Sub M O) → Prop
   | s :: t => (s.pos < P.length ∧ s.offered ++ left = datas (P.drop (s.pos + 1)) ++ seg ∧
       s.got = s.offered.filterMap s.conv) ∧ ∀ s' ∈ t, SubOk P [] s'
 
-/-- the subscription was dropped because the message following what it had been offered
-was mapped to `Some` and could not be sent -/
+/-- the subscription was dropped at the message following what it had been offered (it could
+not be sent, or was skipped while the subscriber no longer accepted messages) -/
 def Rejected (h : List (Cmd M O)) (s : Sub M O) : Prop :=
-  ∃ m tl o, datas (h.drop (s.pos + 1)) = s.offered ++ m :: tl ∧ s.conv m = some o
+  ∃ m tl, datas (h.drop (s.pos + 1)) = s.offered ++ m :: tl
 
 def GoneOk (allowDup : Bool) (dead : List Nat) (h : List (Cmd M O)) (s : Sub M O) : Prop :=
   s.pos < h.length ∧ s.offered <+: datas (h.drop (s.pos + 1)) ∧
@@ -134,8 +134,8 @@ theorem GoneOk.mono {ad : Bool} {dead dead' : List Nat} {h X : List (Cmd M O)} {
   refine ⟨by simp; omega, ?_, hg, fun ha => ?_⟩
   · rw [drop_succ_append hp, datas_append]
     exact hpre.trans (List.prefix_append _ _)
-  · obtain ⟨hdead, m, tl, o, he, hc⟩ := hr ha
-    refine ⟨hd _ hdead, m, tl ++ datas X, o, ?_, hc⟩
+  · obtain ⟨hdead, m, tl, he⟩ := hr ha
+    refine ⟨hd _ hdead, m, tl ++ datas X, ?_⟩
     rw [drop_succ_append hp, datas_append, he]; simp
 
 /-- a subscription that is up to date w.r.t. `P`/`extra` has received a prefix of what is due -/
@@ -332,31 +332,36 @@ theorem inv_task {st : V2 M O} (h : Inv st) : Inv st.task.1 := by
     rw [hpc] at hH hP hS hT
     simp only [view_disp] at hH hP hS hT
     obtain ⟨⟨hp, ho, hg⟩, hrest⟩ := hT
+    -- the subscriber is removed: failed send, or skipped while no longer accepting messages
+    have removed : st.dead.contains s.actor = true →
+        Inv { st with pc := .disp srv todo seg seg rest, gone := st.gone ++ [s] } := by
+      intro hdead
+      refine ⟨P, ⟨by simpa using hH, by simpa using hP, by simpa using hS, ?_, ?_⟩⟩
+      · simpa using todoOk_of_all hrest
+      · intro x hx
+        rcases List.mem_append.mp hx with hx | hx
+        · exact hG x hx
+        · simp at hx; subst hx
+          have hd : datas (st.hist.drop (x.pos + 1)) =
+              x.offered ++ m :: (left ++ (datas rest ++ datas st.queue)) := by
+            rw [hH, drop_succ_append hp, datas_append, datas_append, datas_map_data,
+              datas_append, ← List.append_assoc, ← ho]; simp
+          refine ⟨by rw [hH]; simp; omega, ?_, hg, fun _ => ⟨?_, m, _, hd⟩⟩
+          · rw [hd]; exact List.prefix_append _ _
+          · simpa using hdead
     split
     · -- converter says None
       rename_i hc
-      refine ⟨P, ⟨by simpa using hH, by simpa using hP, by simpa using hS, ?_, hG⟩⟩
-      simp only [view_disp, TodoOk]
-      refine ⟨⟨hp, ?_, ?_⟩, hrest⟩
-      · rw [← ho]; simp
-      · rw [hg]; simp [List.filterMap_append, hc]
+      split
+      · rename_i hdead; exact removed hdead
+      · refine ⟨P, ⟨by simpa using hH, by simpa using hP, by simpa using hS, ?_, hG⟩⟩
+        simp only [view_disp, TodoOk]
+        refine ⟨⟨hp, ?_, ?_⟩, hrest⟩
+        · rw [← ho]; simp
+        · rw [hg]; simp [List.filterMap_append, hc]
     · rename_i o hc
       split
-      · -- rejected: removed
-        rename_i hdead
-        refine ⟨P, ⟨by simpa using hH, by simpa using hP, by simpa using hS, ?_, ?_⟩⟩
-        · simpa using todoOk_of_all hrest
-        · intro x hx
-          rcases List.mem_append.mp hx with hx | hx
-          · exact hG x hx
-          · simp at hx; subst hx
-            have hd : datas (st.hist.drop (x.pos + 1)) =
-                x.offered ++ m :: (left ++ (datas rest ++ datas st.queue)) := by
-              rw [hH, drop_succ_append hp, datas_append, datas_append, datas_map_data,
-                datas_append, ← List.append_assoc, ← ho]; simp
-            refine ⟨by rw [hH]; simp; omega, ?_, hg, fun _ => ⟨?_, m, _, o, hd, hc⟩⟩
-            · rw [hd]; exact List.prefix_append _ _
-            · simpa using hdead
+      · rename_i hdead; exact removed hdead
       · -- delivered
         refine ⟨P, ⟨by simpa using hH, by simpa using hP, by simpa using hS, ?_, hG⟩⟩
         simp only [view_disp, TodoOk]
@@ -467,13 +472,13 @@ theorem Inv.exact {st : V2 M O} (h : Inv st) (hidle : st.idle = true) :
 
 theorem Inv.removed {st : V2 M O} (h : Inv st) (had : st.allowDup = true) :
     ∀ s ∈ st.gone, s.actor ∈ st.dead ∧
-      ∃ m tl o, st.after s = s.offered ++ m :: tl ∧ s.conv m = some o ∧
+      ∃ m tl, st.after s = s.offered ++ m :: tl ∧
         s.got = s.offered.filterMap s.conv := by
   intro s hs
   obtain ⟨P, hH, hP, hS, hT, hG⟩ := h
   obtain ⟨_, _, hg, hr⟩ := hG s hs
-  obtain ⟨hd, m, tl, o, he, hc⟩ := hr had
-  exact ⟨hd, m, tl, o, he, hc, hg⟩
+  obtain ⟨hd, m, tl, he⟩ := hr had
+  exact ⟨hd, m, tl, he, hg⟩
 
 /-- when the task is parked every subscription is in `subscribers` or was removed -/
 theorem all_idle {st : V2 M O} (hidle : st.idle = true) {s : Sub M O} (hs : s ∈ st.all) :
@@ -546,16 +551,29 @@ theorem task_frame (st : V2 M O) (c : Call M) (h : st.task.2 = some c) :
         simp only [V2.all, hpc, Pc.subs, Pc.rest, List.mem_append, List.mem_cons] at hx
         cases hc : s.conv m with
         | none =>
-          simp only [V2.task, hpc, hc, Option.some.injEq] at h ⊢
-          subst h
-          simp only [V2.all, Pc.subs, Pc.rest, List.mem_append, List.mem_cons]
-          rcases hx with ((( hx | (rfl | hx)) | hx) | hx) | hx
-          · simp [hx]
-          · exact absurd rfl hk
-          · simp [hx]
-          · simp [hx]
-          · simp [hx]
-          · simp [hx]
+          cases hd : st.dead.contains s.actor with
+          | true =>
+            simp only [V2.task, hpc, hc, hd, ↓reduceIte, Option.some.injEq] at h ⊢
+            subst h
+            simp only [V2.all, Pc.subs, Pc.rest, List.mem_append, List.mem_cons]
+            rcases hx with ((( hx | (rfl | hx)) | hx) | hx) | hx
+            · simp [hx]
+            · exact absurd rfl hk
+            · simp [hx]
+            · simp [hx]
+            · simp [hx]
+            · simp [hx]
+          | false =>
+            simp only [V2.task, hpc, hc, hd, Bool.false_eq_true, ↓reduceIte, Option.some.injEq] at h ⊢
+            subst h
+            simp only [V2.all, Pc.subs, Pc.rest, List.mem_append, List.mem_cons]
+            rcases hx with ((( hx | (rfl | hx)) | hx) | hx) | hx
+            · simp [hx]
+            · exact absurd rfl hk
+            · simp [hx]
+            · simp [hx]
+            · simp [hx]
+            · simp [hx]
         | some o =>
           cases hd : st.dead.contains s.actor with
           | true =>
